@@ -328,6 +328,7 @@ func (p *asyncProducer) dispatcher() {
 	shuttingDown := false
 
 	for msg := range p.input {
+		verifHook("prod.dispatcher.recv")
 		if msg == nil {
 			Logger.Println("Something tried to send a nil message, it was ignored.")
 			continue
@@ -543,6 +544,7 @@ func (pp *partitionProducer) dispatch() {
 	}()
 
 	for msg := range pp.input {
+		verifHook("prod.partition.recv")
 		if pp.brokerProducer != nil && pp.brokerProducer.abandoned != nil {
 			select {
 			case <-pp.brokerProducer.abandoned:
@@ -609,6 +611,7 @@ func (pp *partitionProducer) dispatch() {
 func (pp *partitionProducer) newHighWatermark(hwm int) {
 	Logger.Printf("producer/leader/%s/%d state change to [retrying-%d]\n", pp.topic, pp.partition, hwm)
 	pp.highWatermark = hwm
+	verifHook("prod.partition.hwm")
 
 	// send off a fin so that we know when everything "in between" has made it
 	// back to us and we can safely flush the backlog (otherwise we risk re-ordering messages)
@@ -626,6 +629,7 @@ func (pp *partitionProducer) flushRetryBuffers() {
 	Logger.Printf("producer/leader/%s/%d state change to [flushing-%d]\n", pp.topic, pp.partition, pp.highWatermark)
 	for {
 		pp.highWatermark--
+		verifHook("prod.partition.flush")
 
 		if pp.brokerProducer == nil {
 			if err := pp.updateLeader(); err != nil {
@@ -754,6 +758,7 @@ func (bp *brokerProducer) run() {
 			if msg == nil {
 				continue
 			}
+			verifHook("prod.broker.input")
 
 			if msg.flags&syn == syn {
 				Logger.Printf("producer/broker/%d state change to [open] on %s/%d\n",
@@ -809,6 +814,7 @@ func (bp *brokerProducer) run() {
 			bp.rollOver()
 		case response, ok := <-bp.responses:
 			if ok {
+				verifHook("prod.broker.response")
 				bp.handleResponse(response)
 			}
 		case <-bp.stopchan:
@@ -976,6 +982,7 @@ func (p *asyncProducer) retryBatch(topic string, partition int32, pSet *partitio
 	Logger.Printf("Retrying batch for %v-%d because of %s\n", topic, partition, kerr)
 	produceSet := newProduceSet(p)
 	produceSet.msgs[topic] = make(map[int32]*partitionSet)
+	verifHook("prod.retrybatch")
 	produceSet.msgs[topic][partition] = pSet
 	produceSet.bufferBytes += pSet.bufferBytes
 	produceSet.bufferCount += len(pSet.msgs)
@@ -1043,6 +1050,7 @@ func (p *asyncProducer) retryHandler() {
 		if msg == nil {
 			return
 		}
+		verifHook("prod.retry.enqueue")
 
 		buf.Add(msg)
 	}
